@@ -3,6 +3,7 @@ package ike
 import (
 	vr "github.com/free5gc/ike/internal/verifrt"
 	"github.com/free5gc/ike/message"
+	"github.com/free5gc/ike/security"
 )
 
 // HProtectRoundTrip (C01): DecodeDecrypt(EncodeEncrypt(m, kS, role), hdr, kR, !role) == m.
@@ -74,4 +75,46 @@ func HNoKeyRoundTrip() {
 	}
 	vr.Assert("c01.nokey.header.equal", message.VEqHeader(&hdr, r.IKEHeader))
 	vr.Assert("c01.nokey.payloads.equal", message.VEqPayloads(orig, r.Payloads))
+}
+
+// HBigPayload (C01): the upper end of the encodable domain - one Nonce payload whose total length
+// (generic header + data) is Param(3) octets: up to 65535 it survives the round trip (with keys, Param(0)
+// >= 0 is the suite; without, Param(0) = -1), beyond that protecting / encoding returns an error instead
+// of a wrapped length field.  Params: suite or -1, sender role, hdrMode, total payload length.
+func HBigPayload() {
+	suite, role, hdrMode, total := vr.Param(0), vr.Param(1), vr.Param(2), vr.Param(3)
+	m := &message.IKEMessage{IKEHeader: message.VGenHeader()}
+	data := vr.Bytes(total - 4)
+	m.Payloads = message.IKEPayloadContainer{&message.Nonce{NonceData: append([]byte{}, data...)}}
+	hdr := *m.IKEHeader
+	var kS, kR *security.IKESAKey
+	if suite >= 0 {
+		km := VGenKeyMaterial(suite)
+		kS, kR = VNewKey(km), VNewKey(km)
+	}
+	b, err := EncodeEncrypt(m, kS, vRole(role))
+	if total > 65535 {
+		vr.Assert("c01.big.oversize-is-an-error", err != nil)
+		return
+	}
+	vr.Assert("c01.big.protect.noerr", err == nil)
+	if err != nil {
+		return
+	}
+	var h *message.IKEHeader
+	if hdrMode == 1 {
+		h, err = message.ParseHeader(b)
+		vr.Assert("c01.big.parseheader.noerr", err == nil)
+		if err != nil {
+			return
+		}
+	}
+	r, err := DecodeDecrypt(b, h, kR, vRole(1-role))
+	vr.Assert("c01.big.unprotect.noerr", err == nil)
+	if err != nil {
+		return
+	}
+	vr.Assert("c01.big.header.equal", message.VEqHeader(&hdr, r.IKEHeader))
+	n, ok := r.Payloads[0].(*message.Nonce)
+	vr.Assert("c01.big.payload.equal", len(r.Payloads) == 1 && ok && vr.EqBytes(n.NonceData, data))
 }
